@@ -69,7 +69,26 @@ TestReporter *create_xml_reporter(const char *prefix) {
 }
 
 static int file_stack_p = 0;
-static FILE *file_stack[100];
+static FILE *initial_file_stack[100];
+static FILE **file_stack = initial_file_stack;
+static int file_stack_size = 100;
+
+/* one open file per nesting level, for any depth */
+static void push_file(FILE *file) {
+    if (file_stack_p == file_stack_size) {
+        FILE **larger = (FILE **)malloc(sizeof(FILE *) * (file_stack_size + 100));
+        if (larger == NULL) {
+            fprintf(stderr, "out of memory for the stack of report files\n");
+            exit(EXIT_FAILURE);
+        }
+        memcpy(larger, file_stack, sizeof(FILE *) * file_stack_size);
+        if (file_stack != initial_file_stack)
+            free(file_stack);
+        file_stack = larger;
+        file_stack_size += 100;
+    }
+    file_stack[file_stack_p++] = file;
+}
 
 static char *indent(TestReporter *reporter) {
     static char buffer[1000];
@@ -185,7 +204,7 @@ static void xml_reporter_start_suite(TestReporter *reporter, const char *suitena
     } else
         out = stdout;
 
-    file_stack[file_stack_p++] = out;
+    push_file(out);
     memo->printer(out, "<?xml version=\"1.0\" encoding=\"ISO-8859-1\" ?>\n");
     memo->printer(out, indent(reporter));
     escaped_suite_path = escaped(suite_path);
